@@ -61,7 +61,7 @@ def canon(v):
     if t is UUID:
         return "u" + v.hex
     if t is datetime:
-        return "dt" + v.isoformat()
+        return "dt" + v.isoformat() + ("~fold" if v.fold else "")
     if t is date:
         return "d" + v.isoformat()
     if isinstance(v, (set, frozenset)):
@@ -121,7 +121,7 @@ def enc(v):
     if t is UUID:
         return {"$uuid": v.hex}
     if t is datetime:
-        return {"$dt": v.isoformat()}
+        return {"$dt": v.isoformat(), "fold": 1} if v.fold else {"$dt": v.isoformat()}
     if t is date:
         return {"$date": v.isoformat()}
     if v is Ellipsis:
@@ -148,6 +148,8 @@ def dec(j):
     if t is list:
         return [dec(x) for x in j]
     if t is dict:
+        if "$dt" in j and len(j) == 2:
+            return datetime.fromisoformat(j["$dt"]).replace(fold=j.get("fold", 0))
         (k, x), = j.items()
         if k == "$int":
             return int(x)
